@@ -60,9 +60,13 @@ prop( 'C20', [ 'T-TNET' ],
       not_decided='value round trip for all values, nesting depth, chunking (dynamic).',
       technique='encoder/decoder idiom classification over dispatch chains (AST pattern matching); grammar extraction' )
 
-prop( 'C03', [ 'W-ATTR', 'R-SNAPSHOT', 'D-TYPE', 'T-TYPENAMES' ],
+prop( 'C03', [ 'W-ATTR', 'D-VALIDATE', 'R-SNAPSHOT', 'D-TYPE', 'T-TYPENAMES', 'T-ATTRKEYS' ],
       decides='storage-discipline clauses only.  W-ATTR: tags are mutated only by statements reachable for the write services '
               '(Write Tag, Write Tag Fragmented, Set Attribute Single) - no read service and no refused request changes a tag; '
+              'D-VALIDATE: the tag store is dominated by type and range validation, the stored slice is the validated (beg,end), the write-capacity '
+              'guard compares against the requested extent and Attribute slices cannot truncate or extend the underlying list (a write changes '
+              'only the addressed elements of a fixed-length array); T-ATTRKEYS: attribute ids (numeric strings) are ordered numerically '
+              'wherever the next free id is computed, so distinct auto-allocated tags never alias one attribute; '
               'R-SNAPSHOT: element ranges are read and written by one list operation and produce() iterates a slice copy; '
               'D-TYPE: the read reply\'s .type/.structure_tag come from the tag\'s own parser and the data from attribute[beg:end]; '
               'T-TYPENAMES: every configurable type name creates the parser class of that name with a zero/empty default of the Python type its '
